@@ -11,9 +11,9 @@ import (
 
 func init() {
 	register(&PropSpec{
-		ID: "C02",
+		ID:          "C02",
 		Explanation: "Structural necessary conditions for 'a reliable upstream loses nothing across disconnect and resume'. R1: in the cut, the unacknowledged-chunk store's Store dominates the start of transmission, its error path returns without transmitting, and stored and sent groups come from the same cut. R2: the per-chunk waiter removes a stored chunk only after the send returned nil and a value was actually received from the waiter channel (comma-ok true); a closed channel (cancellation) reaches return without Remove. R3: the function producing the waiter channel never lets select-chance decide between 'timeout' and 'cancelled': the send of the timeout marker is preceded by a sequential test that the run context is not done. R4: the resume request carries Upstream.ID, which only the constructor stores. R5: after a resume, reliable streams list and retransmit under the stored sequence numbers, and Clear is unreachable on the reliable branch. R6: at least one store that can flow into a stream keeps the payload it is given. R7: after a successful resume the ack subscription and the stream alias come from the resume response.",
-		NotDecided: []string{"eventual delivery (liveness)", "multiple failures", "which chunks the broker saw", "totals after several outages"},
+		NotDecided:  []string{"eventual delivery (liveness)", "multiple failures", "which chunks the broker saw", "totals after several outages"},
 		Assumptions: []string{"the cut and the per-chunk waiter are discovered by the calls they make (Store/Remove on the sentStorage interface)"},
 		Rules: func(r *Run) {
 			ruleC02R1(r)
@@ -26,6 +26,7 @@ func init() {
 			ruleC02R6(r)
 			ruleC02R7(r)
 			ruleC02R8(r)
+			ruleResumeRestoresConnected(r, "R9", "Upstream")
 			ruleC01R8(r)
 		},
 	})
